@@ -13,8 +13,9 @@
      shifted L n s s'   s' is s moved by L: see C14_shifted_means
      exec_with ec fuel toks = exec() with `ec` running the children of blocks (exec_f (S d) k = exec_with (exec_f d k) k)
    Vocabulary (PlayFromP.v): retime tp e = e with time - tp; kept tp e = (NoteOn|Voice|CC|Meta|SysEx) at or after tp;
-     latest_cc tp no evs / latest_voice tp evs = value of the LAST such event before tp (C14_latest_cc_means);
-     pf_early / pf_restored / pf_kept = the three segments of the result. *)
+     latest_cc_ev tp no evs / latest_voice_ev tp evs = the LAST controller-`no` / program event of the list before tp
+     (C14_latest_cc_means); compile() applies play_from to the time-sorted list, where that is the latest in time
+     (C14_playfrom_latest_in_time); pf_early / pf_restored / pf_kept = the three segments of the result. *)
 From Sakura.Model Require Import Base Cursor Length Event Writer Song Token LoopMachine LexCore RunCore Tie Compile.
 From Sakura.Proofs Require Import SortP TimeP PlayFromP.
 From Coq Require Import Sorted.
@@ -207,43 +208,76 @@ Theorem C14_playfrom_early : forall (tp : Z) (evs : list event),
   pf_early tp evs = map at_zero (filter (fun e => (is_type Meta e || is_type SysEx e) && (e_time e <? tp)) evs).
 Proof. exact play_from_early. Qed.
 
-(* (c) per controller number 0..127: at most one restoring event, at tick 0, carrying the LATEST value written
-   before the point - exactly one as soon as that value is not negative; none if the controller was not written *)
+(* (c) per controller number 0..127: exactly one restoring event when the controller was written before the point,
+   none otherwise; at tick 0, on the channel of that LATEST write, carrying its value as the writer sends it (0..127) *)
 Theorem C14_playfrom_restored_cc : forall (tp : Z) (evs : list event) (no : Z), 0 <= no < 128 ->
   filter (fun e => e_v1 e =? no) (pf_restored_cc tp evs)
-  = match latest_cc tp no evs with
-    | Some v => if v <? 0 then [] else [ev_cc 0 (restore_ch tp evs) no v]
+  = match latest_cc_ev tp no evs with
+    | Some e => [ev_cc 0 (e_ch e) no (value_range 0 (e_v2 e) 127)]
     | None => []
     end.
 Proof. exact restored_cc_unique. Qed.
 
 Theorem C14_playfrom_restored_cc_shape : forall (tp : Z) (evs : list event) (e : event), In e (pf_restored_cc tp evs) ->
-  e_type e = ControllChange /\ e_time e = 0 /\ 0 <= e_v1 e < 128 /\ e_ch e = restore_ch tp evs /\
-  latest_cc tp (e_v1 e) evs = Some (e_v2 e) /\ 0 <= e_v2 e.
+  e_type e = ControllChange /\ e_time e = 0 /\ 0 <= e_v1 e < 128 /\ 0 <= e_v2 e <= 127 /\
+  exists e0, latest_cc_ev tp (e_v1 e) evs = Some e0 /\ e_ch e = e_ch e0 /\ e_v2 e = value_range 0 (e_v2 e0) 127.
 Proof. exact restored_cc_shape. Qed.
 
-(* the program: the latest Voice before the point *)
+(* the program: the latest Voice before the point, on its channel *)
 Theorem C14_playfrom_restored_voice : forall (tp : Z) (evs : list event),
   pf_restored tp evs = pf_restored_cc tp evs ++
-    match latest_voice tp evs with Some v => if v >=? 0 then [ev_voice 0 (restore_ch tp evs) v] else [] | None => [] end.
+    match latest_voice_ev tp evs with Some e => if e_v1 e >=? 0 then [ev_voice 0 (e_ch e) (e_v1 e)] else [] | None => [] end.
 Proof. reflexivity. Qed.
 
-(* "latest": the last such event of the list before the point *)
-Theorem C14_latest_cc_means : forall (tp no : Z) (evs : list event) (v : Z),
-  latest_cc tp no evs = Some v <->
-  exists l1 e l2, evs = l1 ++ e :: l2 /\ e_type e = ControllChange /\ e_time e < tp /\ e_v1 e = no /\ e_v2 e = v /\
+(* "latest" on a list: the last such event of the list before the point *)
+Theorem C14_latest_cc_means : forall (tp no : Z) (evs : list event) (e : event),
+  latest_cc_ev tp no evs = Some e <->
+  exists l1 l2, evs = l1 ++ e :: l2 /\ e_type e = ControllChange /\ e_time e < tp /\ e_v1 e = no /\
     Forall (fun x => ~ (e_type x = ControllChange /\ e_time x < tp /\ e_v1 x = no)) l2.
 Proof. exact latest_cc_some. Qed.
 
 Theorem C14_latest_cc_none : forall (tp no : Z) (evs : list event),
-  latest_cc tp no evs = None <-> Forall (fun x => ~ (e_type x = ControllChange /\ e_time x < tp /\ e_v1 x = no)) evs.
+  latest_cc_ev tp no evs = None <-> Forall (fun x => ~ (e_type x = ControllChange /\ e_time x < tp /\ e_v1 x = no)) evs.
 Proof. exact latest_cc_none. Qed.
 
-Theorem C14_latest_voice_means : forall (tp : Z) (evs : list event) (v : Z),
-  latest_voice tp evs = Some v <->
-  exists l1 e l2, evs = l1 ++ e :: l2 /\ e_type e = Voice /\ e_time e < tp /\ e_v1 e = v /\
+Theorem C14_latest_voice_means : forall (tp : Z) (evs : list event) (e : event),
+  latest_voice_ev tp evs = Some e <->
+  exists l1 l2, evs = l1 ++ e :: l2 /\ e_type e = Voice /\ e_time e < tp /\
     Forall (fun x => ~ (e_type x = Voice /\ e_time x < tp)) l2.
 Proof. exact latest_voice_some. Qed.
+
+Theorem C14_latest_voice_none : forall (tp : Z) (evs : list event),
+  latest_voice_ev tp evs = None <-> Forall (fun x => ~ (e_type x = Voice /\ e_time x < tp)) evs.
+Proof. exact latest_voice_none. Qed.
+
+(* compile() hands play_from the TIME-SORTED events of each track (after the pending ties are flushed) ... *)
+Theorem C14_playfrom_applied : forall s : song,
+  (0 <= s_play_from s ->
+   tracks_for_writer s
+   = map (fun t => play_from (s_play_from s) (events_sort (tr_events (check_tie_notes (s_timebase s) t)))) (s_tracks s)) /\
+  (s_play_from s < 0 ->
+   tracks_for_writer s = map (fun t => tr_events (check_tie_notes (s_timebase s) t)) (s_tracks s)).
+Proof. intros s. exact (conj (tracks_for_writer_play_from s) (tracks_for_writer_off s)). Qed.
+
+(* ... and there the last such event of the list is the LATEST IN TIME before the point (every other write of that
+   controller before the point is not later), and among the writes of that very tick the one written last; a
+   controller is left alone exactly when the track never wrote it before the point.  evs: the track's events in the
+   order the commands were executed (Sub{} and TIME may have written them out of time order) *)
+Theorem C14_playfrom_latest_in_time : forall (tp no : Z) (evs : list event),
+  (forall e, latest_cc_ev tp no (events_sort evs) = Some e ->
+     In e evs /\ e_type e = ControllChange /\ e_time e < tp /\ e_v1 e = no /\
+     Forall (fun x => e_type x = ControllChange -> e_v1 x = no -> e_time x < tp -> e_time x <= e_time e) evs /\
+     exists a b, at_time (e_time e) evs = a ++ e :: b /\ Forall (fun x => ~ (e_type x = ControllChange /\ e_v1 x = no)) b) /\
+  (latest_cc_ev tp no (events_sort evs) = None <->
+     Forall (fun x => ~ (e_type x = ControllChange /\ e_time x < tp /\ e_v1 x = no)) evs) /\
+  (forall e, latest_voice_ev tp (events_sort evs) = Some e ->
+     In e evs /\ e_type e = Voice /\ e_time e < tp /\
+     Forall (fun x => e_type x = Voice -> e_time x < tp -> e_time x <= e_time e) evs /\
+     exists a b, at_time (e_time e) evs = a ++ e :: b /\ Forall (fun x => e_type x <> Voice) b).
+Proof.
+  intros tp no evs.
+  exact (conj (latest_cc_in_time tp no evs) (conj (latest_cc_sorted_none tp no evs) (latest_voice_in_time tp evs))).
+Qed.
 
 (* (d) after the writer's normalize + stable sort: at tick 0 the early events, the restored ones, then whatever the
    kept segment has at tick 0 ... *)
@@ -267,11 +301,6 @@ Theorem C14_playfrom_drops : forall (tp : Z) (evs : list event) (ty : etype),
 Proof.
   intros tp evs ty H. apply play_from_drops. destruct H as [-> | [-> | [-> | ->]]]; reflexivity.
 Qed.
-
-(* compile() applies it to every track (after the pending ties are flushed) when a point was set *)
-Theorem C14_playfrom_applied : forall s : song, 0 <= s_play_from s ->
-  tracks_for_writer s = map (fun t => play_from (s_play_from s) (tr_events (check_tie_notes (s_timebase s) t))) (s_tracks s).
-Proof. exact tracks_for_writer_play_from. Qed.
 
 (* ================================================================================================ *)
 (* non-vacuity: the hypotheses are satisfiable and the conclusions say something, by evaluation      *)
@@ -318,8 +347,19 @@ Definition ex14_evs := [ev_cc 0 0 7 100; ev_voice 0 0 4; ev_note 0 0 60 86 100; 
 Example C14_example_playfrom :
   play_from 96 ex14_evs
   = [ev_meta 0 255 81 3 [7; 161; 32]; ev_cc 0 0 7 90; ev_voice 0 0 4; ev_note 0 0 62 86 100; ev_cc 4 0 10 64; ev_note 96 0 64 86 100] /\
-  latest_cc 96 7 ex14_evs = Some 90 /\ latest_voice 96 ex14_evs = Some 4 /\
+  option_map e_v2 (latest_cc_ev 96 7 ex14_evs) = Some 90 /\ option_map e_v1 (latest_voice_ev 96 ex14_evs) = Some 4 /\
   map e_type (normalize_and_sort (play_from 96 ex14_evs)) = [Meta; ControllChange; Voice; NoteOn; ControllChange; NoteOff; NoteOn; NoteOff].
+Proof. vm_compute. repeat split. Qed.
+
+(* y7,-1 c ? d  : the value in force is 0 (as written to the file);   CH(2) y7,100 CH(3) @5 c ? d : each on its channel;
+   Sub{ r2 y7,50 } y7,100 c c c ? d : written out of time order - the value in force at 288 is 50 *)
+Example C14_example_playfrom_corners :
+  play_from 96 [ev_cc 0 0 7 (-1); ev_note 0 0 60 86 100; ev_note 96 0 62 86 100] = [ev_cc 0 0 7 0; ev_note 0 0 62 86 100] /\
+  play_from 96 [ev_cc 0 1 7 100; ev_voice 0 2 4; ev_note 0 2 60 86 100; ev_note 96 2 62 86 100]
+    = [ev_cc 0 1 7 100; ev_voice 0 2 4; ev_note 0 2 62 86 100] /\
+  (let evs := [ev_cc 192 0 7 50; ev_cc 0 0 7 100; ev_note 0 0 60 86 100; ev_note 288 0 62 86 100] in
+   play_from 288 evs = [ev_cc 0 0 7 100; ev_note 0 0 62 86 100] /\                 (* list order *)
+   play_from 288 (events_sort evs) = [ev_cc 0 0 7 50; ev_note 0 0 62 86 100]).       (* what compile() does *)
 Proof. vm_compute. repeat split. Qed.
 
 Print Assumptions C14_time_formula.
@@ -351,6 +391,8 @@ Print Assumptions C14_playfrom_restored_voice.
 Print Assumptions C14_latest_cc_means.
 Print Assumptions C14_latest_cc_none.
 Print Assumptions C14_latest_voice_means.
+Print Assumptions C14_latest_voice_none.
+Print Assumptions C14_playfrom_latest_in_time.
 Print Assumptions C14_playfrom_sorted_tick0.
 Print Assumptions C14_playfrom_sorted_order.
 Print Assumptions C14_playfrom_drops.
